@@ -96,5 +96,8 @@ func init() {
 	Props["C25"] = chainProp(45, 900, base+"absent votes over the signing window, double-sign evidence, unjail attempts by operator/output/strangers before and after the jail end; distinct case = committed population shape")
 	Props["C26"] = chainProp(45, 900, base+"BeginBlock diffs: collected fees leave the fee collector to the DAO and the proposer side with sum zero and the DAO share matching the exact rational split; (relay-reward split is checked where proofs are accepted); distinct case = (dao%, proposer%, recipients)")
 	Props["C28"] = chainProp(45, 900, base+"application stakes around minimum stake, chain limit, funds and the max-applications boundary; transfers to fresh keys; distinct case = (new|edit) and transfer outcomes")
+	Props["C37"] = chainProp(45, 900, base+"genesis leaves a random subset of features unscheduled; feature-upgrade transactions schedule them (and restate scheduled ones) while the chain runs, with clean restarts in between; the stored list, the node's activation schedule and the activation predicates at h-1,h,h+1 are compared with the model schedule after every upgrade and every restart; distinct case = (features named, accepted)")
+	Props["C42"] = chainProp(45, 900, base+"every block is indexed through AddBatch exactly as the fork does; a searcher then sweeps hash lookups, height, sender, sender+height and recipient searches in both directions with page sizes {1,2,3,30} through PocketCoreApp.Query*Txs -> stubbed TxSearch -> real indexer, at the end of the run and after every restart; distinct case = (indexed txs, signers, recipients)")
+	Props["C43"] = chainProp(60, 900, base+"at the end of the run the state is exported (ExportAppState at the last height) and imported by a child process (InitChain with the export); accounts and balances, supply, nodes, applications, all parameters and pending claims are compared as typed values; distinct case = shape of the exported state (unstaking nodes/apps, jailed, claims)")
 	Props["C36"] = chainProp(45, 900, base+"parameter changes, upgrades and DAO transfers/burns by the owner and by other keys, amounts around the DAO balance; distinct case = (tx kind, encoding, outcome)")
 }
